@@ -105,7 +105,8 @@ class C05(Property):
                         if v.startswith(b"-") or v == b"":
                             v = b"w" + v.lstrip(b"-")
                         nm = (b"--" + m["n"]["long"][0].encode()) if m["n"]["long"] else (b"-" + m["n"]["short"][0].encode())
-                        given.append([nm + b"=" + v] if len(nm) > 2 or len(m["n"]["short"][0].encode()) == 1 else [nm, v])
+                        # (a multi-byte short name with `=` is the known finding C02-short-eq-multibyte: write it as two items)
+                        given.append([nm + b"=" + v] if nm.startswith(b"--") or len(m["n"]["short"][0].encode()) == 1 else [nm, v])
                         if m["ty"] == "string":
                             marks.append(v)
                 argv = [i for gv in given for i in gv] + gen.flatten(pieces)
